@@ -446,12 +446,27 @@ class MetaDataReplace(MosFile):
         Merge into the :class:`RunningOrder` object provided.
         """
         for source in self.base_tag:
-            target, target_index = find_child(parent=ro.base_tag, child_tag=source.tag)
+            target, target_index = self._find_target(ro, source)
             if target is None:
                 insert_node(parent=ro.base_tag, node=source, index=len(ro.base_tag))
             else:
                 replace_node(parent=ro.base_tag, old_node=target, new_node=source, index=target_index)
         return ro
+
+    @staticmethod
+    def _find_target(ro: RunningOrder, source: Element) -> Tuple[Optional[Element], Optional[int]]:
+        """
+        Find the tag in the running order to be replaced by *source*. A
+        ``mosExternalMetadata`` block only matches a block with the same
+        ``mosSchema``.
+        """
+        if source.tag != 'mosExternalMetadata':
+            return find_child(parent=ro.base_tag, child_tag=source.tag)
+        schema = source.findtext('mosSchema')
+        for i, child in enumerate(ro.base_tag):
+            if child.tag == source.tag and child.findtext('mosSchema') == schema:
+                return (child, i)
+        return (None, None)
 
     def inspect(self):
         """
